@@ -562,6 +562,9 @@ pub struct SchedStats {
     pub max_schedule_len: usize,
     /// one explored schedule written out (thread:transition per step)
     pub sample_schedule: Vec<String>,
+    /// a managed thread was left behind (hang verdict): the process must not
+    /// run further executions
+    pub tainted: bool,
 }
 
 impl SchedStats {
@@ -1598,6 +1601,7 @@ pub enum Sym {
     Alow,
     Abig,
     Ahuge,
+    Agiant,
     T,
     Pfirst,
     Plast,
@@ -1627,6 +1631,7 @@ pub fn instantiate(sym: Sym, m: &RefLog, outstanding_flushes: usize, waited: usi
         Sym::Alow => w(Op::Append(vec![((term + 1, next), payload((term + 1, next), 0))])),
         Sym::Abig => w(Op::Append(vec![((term, next), payload((term, next), 2))])),
         Sym::Ahuge => w(Op::Append(vec![((term, next), payload((term, next), 3))])),
+        Sym::Agiant => w(Op::Append(vec![((term, next), payload((term, next), 4))])),
         Sym::T => {
             let l = last?;
             if m.entries.contains_key(&l.1) {
